@@ -56,12 +56,16 @@ struct std_pair_%(UPT)s_std_future_int { struct %(UPT)s first; struct std_future
 #define %(VIT)s__op_deref__0 vf_vit_deref
 #define %(VIT)s__op_inc__0(it) ((it)->idx = (it)->idx + 1, (it))
 #define ext_op_ne__normal_iterator_%(UPT)s_%(VT)s_ref_normal_iterator_%(UPT)s_%(VT)s_ref(a, b) ((a)->idx != (b)->idx)
+#define ext_op_eq__normal_iterator_%(UPT)s_%(VT)s_ref_normal_iterator_%(UPT)s_%(VT)s_ref(a, b) ((a)->idx == (b)->idx)
 #define std_swap__%(VT)s_std_allocator_%(UPT)s_ref_%(VT)s_std_allocator_%(UPT)s_ref vf_vt_swap
 #define %(UPT)s__op_arrow__0(u) ((u)->p)
 #define %(UPV)s__op_arrow__0(u) ((u)->p)
 #define %(UPI)s__op_arrow__0(u) ((u)->p)
 #define %(UPV)s__ctor__pointer(u, q) ((u)->p = (q))
 #define %(UPI)s__ctor__pointer(u, q) ((u)->p = (q))
+#define %(UPT)s__ctor_move(d, s) ((d)->p = (s)->p, (s)->p = 0)
+#define %(UPT)s__ctor__%(UPV)s_std_default_delete_%(VR)s_rref(d, s) ((d)->p = (struct %(TR)s *)(s)->p, (s)->p = 0)
+#define %(UPT)s__ctor__%(UPI)s_std_default_delete_%(TY)s_rref(d, s) ((d)->p = (struct %(TR)s *)(s)->p, (s)->p = 0)
 #define %(UPT)s__dtor(u) vf_up_dtor((struct %(TR)s **)&(u)->p)
 #define %(UPV)s__dtor(u) vf_up_dtor((struct %(TR)s **)&(u)->p)
 #define %(UPI)s__dtor(u) vf_up_dtor((struct %(TR)s **)&(u)->p)
